@@ -409,6 +409,26 @@ let () =
                         | _ -> if within env type_fuel (TNamed (cl t)) v then 1 else 0)
                    | ANotEnough -> "err NotEnoughData"
                    | APanic s -> "panic " ^ str s)
+               | "arbtop", [ k; h ] -> (
+                   let u = bytes_of_hex h in
+                   let vars n = match List.assoc_opt (cl n) spec_request_enums with Some v -> v | None -> [] in
+                   let show (path, v) =
+                     (* printed like the harness prints a decoded request: unit variants as e:Name, Vendor as an integer *)
+                     let p = str path in
+                     let last = match List.rev (String.split_on_char ':' p) with x :: _ -> x | [] -> p in
+                     let pre = if String.length p > String.length last then String.sub p 0 (String.length p - String.length last) else "" in
+                     pre ^ (match v with VUnit -> "e:" ^ last | _ -> "v:" ^ last ^ "(" ^ show_val v ^ ")")
+                   in
+                   let r =
+                     match k with
+                     | "ctap2" -> arb_ctap2_request env (vars "ctap2::Request") u
+                     | "ctap1" -> arb_ctap1_request (vars "ctap1::Request") u
+                     | _ -> arb_authenticator_request env (vars "authenticator::Request") (vars "ctap1::Request") (vars "ctap2::Request") u
+                   in
+                   match r with
+                   | AOk (pv, rest) -> Printf.sprintf "ok %s rest=%d" (show pv) (List.length rest)
+                   | ANotEnough -> "err NotEnoughData"
+                   | APanic s -> "panic " ^ str s)
                | "optab", [ b ] ->
                    let z = z_of_hex b in
                    let o = op_of_u8 tb z in
